@@ -62,7 +62,9 @@ func main() {
 			"RANDOM: trees of depth<=5, width<=4 (quick 3000, thorough 80000) x 4 exchanges steering filter conditions true and false, request then response; " +
 			"invalid configurations (unknown name, two keys, no key, scope outside {request,response}, scope unsupported by the node, JSON syntax damaged at a chosen nesting depth) " +
 			"must be rejected by parse.FromJSON and answered 400; reconfiguration histories through martianhttp.Modifier.ServeHTTP (accepted / rejected POSTs interleaved with traffic), " +
-			"sequentially and concurrently with traffic under the race detector (every call's effect must be wholly that of a configuration active during the call). " +
+			"sequentially and concurrently with traffic under the race detector (every call's effect must be wholly that of a configuration active during the call); " +
+			"concurrent configurators: rounds in which 2-4 goroutines POST distinct valid configurations at the same moment (quick 30000 rounds, 10000 of them in the race build; thorough 300000), after all returned an exchange must show the request AND response effect of ONE of them. " +
+			"Query strings carry parameter names/values that need escaping (tags[], 'user id', 'x y'), each component encoded in a randomly chosen legal way (%XX upper/lower hex, '+', needless escapes); the reference decodes them itself. " +
 			"Oracle: reference interpreter written from the statement. A class = (container kinds present | depth | scope patterns | error pattern | condition-outcome vector bucket) " +
 			"observed on a compared evaluation, plus (defect | depth | position) for rejections and history/overlap patterns for reconfiguration.",
 		Assumptions: []string{
@@ -90,6 +92,10 @@ func main() {
 			for i := 0; i < nr; i++ {
 				bs = append(bs, vh.Batch{Name: fmt.Sprintf("race-%d", i), Race: true, TimeoutS: 1200})
 			}
+			for i := 0; i < 2; i++ {
+				bs = append(bs, vh.Batch{Name: fmt.Sprintf("cpost-%d", i), TimeoutS: 1200})
+			}
+			bs = append(bs, vh.Batch{Name: "cpost-r", Race: true, TimeoutS: 1200})
 			return bs
 		},
 		Run:    run,
@@ -1182,6 +1188,137 @@ func bucket(n int) string {
 	return "80+"
 }
 
+// ---------------------------------------------------------------------------
+// several configurators posting at the same time
+
+type cpostCase struct {
+	Kind   string `json:"kind"` // "cpost"
+	Stream string `json:"stream"`
+	Idx    int    `json:"idx"`
+	Rounds int    `json:"rounds"`
+}
+
+// runCPost: in every round 2..4 goroutines POST distinct valid configurations
+// to the same martianhttp.Modifier at the same moment. After all of them have
+// returned, nothing is in flight any more: an exchange must then show the
+// request effect AND the response effect of ONE of the configurations posted in
+// that round ("an accepted one replaces it completely").
+func runCPost(r *vh.Run, c cpostCase) {
+	rng := r.Rng(c.Stream, c.Idx)
+	msg := cfgx.RandMsg(rng)
+	// a pool of configurations that act visibly on both halves of the exchange
+	type cfg struct {
+		t        *cfgx.Node
+		js       string
+		req, res outcome
+	}
+	var pool []cfg
+	for len(pool) < 6 {
+		pre := string(rune('A'+len(pool))) + "."
+		t := cfgx.GenTree(rng, cfgx.GenOpts{MaxDepth: 1 + rng.Intn(3), MaxWidth: 3, IDPrefix: pre, NoScopes: true, LeafProbe: true})
+		for try := 0; ; try++ {
+			st := cfgx.NewState(msg)
+			ref := &cfgx.Ref{St: st}
+			qe := ref.Run(t, cfgx.Req)
+			qo := outcome{hdr: cfgx.HeaderString(st.ReqH), errs: strings.Join(sortedCopy(qe), "\n")}
+			nq := len(st.ReqH[cfgx.TraceHeader])
+			ref = &cfgx.Ref{St: st}
+			se := ref.Run(t, cfgx.Res)
+			so := outcome{hdr: cfgx.HeaderString(st.ResH), status: st.Status, errs: strings.Join(sortedCopy(se), "\n")}
+			if nq > 0 && len(st.ResH[cfgx.TraceHeader]) > 0 {
+				pool = append(pool, cfg{t, t.JSON(), qo, so})
+				break
+			}
+			// fall back to a plain group of probes after a few unlucky draws
+			t = &cfgx.Node{Kind: cfgx.KFifo, Kids: []*cfgx.Node{{Kind: cfgx.KProbe, A: map[string]string{"id": pre + "1"}}, {Kind: cfgx.KProbe, A: map[string]string{"id": pre + "2"}}}}
+			if try > 3 {
+				panic("cpost: cannot build a two-sided configuration")
+			}
+		}
+	}
+	m := martianhttp.NewModifier()
+	mixed, badStatus := 0, 0
+	var firstMixed map[string]interface{}
+	for round := 0; round < c.Rounds; round++ {
+		K := 2 + rng.Intn(3)
+		perm := rng.Perm(len(pool))[:K]
+		codes := make([]int, K)
+		var wg sync.WaitGroup
+		var start int32
+		for i := 0; i < K; i++ {
+			wg.Add(1)
+			go func(i int) {
+				defer wg.Done()
+				req := httptest.NewRequest("POST", "http://martian.proxy/configure", strings.NewReader(pool[perm[i]].js))
+				rw := httptest.NewRecorder()
+				for atomic.LoadInt32(&start) == 0 {
+				}
+				m.ServeHTTP(rw, req)
+				codes[i] = rw.Code
+			}(i)
+		}
+		atomic.StoreInt32(&start, 1)
+		wg.Wait()
+		for _, code := range codes {
+			if code != 200 {
+				badStatus++
+			}
+		}
+		req := msg.Request()
+		qerr := m.ModifyRequest(req)
+		qo := obsOutcome(req.Header, 0, qerr)
+		rs := msg.Response(req)
+		serr := m.ModifyResponse(rs)
+		so := obsOutcome(rs.Header, rs.StatusCode, serr)
+		ok := false
+		for _, i := range perm {
+			if pool[i].req == qo && pool[i].res == so {
+				ok = true
+				break
+			}
+		}
+		if !ok {
+			mixed++
+			if firstMixed == nil {
+				var posted []string
+				for _, i := range perm {
+					posted = append(posted, pool[i].t.Describe())
+				}
+				firstMixed = map[string]interface{}{"round": round, "posted": posted, "request_effect": fmt.Sprintf("%+v", qo), "response_effect": fmt.Sprintf("%+v", so), "msg": msg}
+			}
+		}
+	}
+	r.Eval(c.Rounds)
+	r.Count("concurrent_post_rounds", int64(c.Rounds))
+	if badStatus > 0 {
+		r.ViolationCase(c, "C12:accept:config:concurrent-posts", fmt.Sprintf("%d valid configurations posted concurrently were not answered 200", badStatus), nil)
+	}
+	if mixed > 0 {
+		// a configuration that diverges on its own is a tree divergence
+		for _, p := range pool {
+			k := 0
+			if checkTree(p.t, []*cfgx.Msg{msg}, nil, &k) != nil {
+				judgeTree(r, treeCase{Kind: "tree", Stream: c.Stream, Idx: c.Idx, Tree: p.t, Msgs: []*cfgx.Msg{msg}})
+				return
+			}
+		}
+		firstMixed["rounds_mixed"] = mixed
+		r.ViolationCase(c, "C12:reconfig-mixed:concurrent-posts",
+			fmt.Sprintf("after concurrent accepted POSTs had all returned, %d of %d rounds left request and response effects that belong to no single posted configuration", mixed, c.Rounds), firstMixed)
+		return
+	}
+	r.Class(fmt.Sprintf("cpost|rounds=%d|held", c.Rounds))
+}
+
+func runCPostBatch(r *vh.Run, batch string) {
+	n := r.Pick(20, 200)
+	for i := 0; i < n; i++ {
+		c := cpostCase{Kind: "cpost", Stream: "c12-" + batch, Idx: i, Rounds: 500}
+		r.Case(c)
+		runCPost(r, c)
+	}
+}
+
 func runRace(r *vh.Run, batch string) {
 	n := r.Pick(12, 40)
 	for i := 0; i < n; i++ {
@@ -1209,6 +1346,8 @@ func run(r *vh.Run, batch string) {
 		runReconf(r)
 	case strings.HasPrefix(batch, "race-"):
 		runRace(r, batch)
+	case strings.HasPrefix(batch, "cpost-"):
+		runCPostBatch(r, batch)
 	}
 }
 
@@ -1243,6 +1382,11 @@ func replay(r *vh.Run, raw json.RawMessage) {
 		for i := 0; i < 10; i++ {
 			runConc(r, c)
 		}
+	case "cpost":
+		var c cpostCase
+		json.Unmarshal(raw, &c)
+		c.Rounds *= 20
+		runCPost(r, c)
 	default:
 		r.Inconclusive("replay of block cases is not supported; re-run the tier with the same VERIF_SEED", nil)
 	}
